@@ -301,6 +301,7 @@ macro_rules! impl_dens {
             fn hash_of(&self, x: u64) -> u64 {
                 BuildHasherDefault::<H>::default().hash_one(&x)
             }
+            #[cfg(feature = "hooks")]
             fn raw(&self) -> Option<Raw> {
                 let (f, h, i, n) = self.0.verif_raw();
                 Some(Raw { fl: $bits(&f), hashes: h, init: i, nb_empty: n })
